@@ -669,6 +669,24 @@ class Builtins:
             self.path.add_fact(z3.Implies(m, z3.And(*facts)))
         return m
 
+    def regex_weak(self, pat: VStr, s: VStr, kind: str, node: Any, fr: Frame) -> Any:
+        """z3 Bool for ``re.match`` / ``re.search``: a predicate of the string of which only
+        fullmatch ⇒ match ⇒ search is known (enough to notice that it is weaker than fullmatch)."""
+        if pat.py is None:
+            raise Unsupported("symbolic regex")
+        if s.py is not None:
+            import re
+            return z3.BoolVal(getattr(re, kind)(pat.py, s.py) is not None)
+        import hashlib
+        h = hashlib.md5(pat.py.encode()).hexdigest()[:10]
+        full = self.regex_match(pat, s, node, fr)
+        fm = z3.Function("re_match_" + h, SEQ, z3.BoolSort())
+        fs = z3.Function("re_search_" + h, SEQ, z3.BoolSort())
+        self.note_assumption(f"re.{kind}({pat.py!r}, s) is an uninterpreted predicate of s implied by re.fullmatch")
+        self.path.add_fact(z3.Implies(full, fm(s.t)))
+        self.path.add_fact(z3.Implies(fm(s.t), fs(s.t)))
+        return fm(s.t) if kind == "match" else fs(s.t)
+
     def regex_on_units(self, pat: str, us: List[Any]) -> Optional[Any]:
         """fullmatch of a fixed-length pattern (literals / character classes with exact repetition counts)
         against a string whose characters are known one by one: a conjunction of character tests."""
@@ -765,6 +783,8 @@ class Builtins:
             pat = base.data["pattern"]
             if name == "fullmatch":
                 return self.match_result(self.regex_match(pat, self.as_str(args[0], node, fr), node, fr))
+            if name in ("match", "search"):
+                return self.match_result(self.regex_weak(pat, self.as_str(args[0], node, fr), name, node, fr))
             if name == "pattern":
                 return pat
         h = self.engine.ext_methods.get((base.kind.split(".")[-1], name))
